@@ -87,11 +87,13 @@ impl<const N: usize> NodeVersions<N> {
     fn try_update_max_stamp(&mut self, source: usize, ts: HLCTimestamp) -> bool {
         match self.nodes_max_stamps[source].entry(ts.node()) {
             Entry::Occupied(mut entry) => {
-                // We have already observed these events at some point from this node.
-                // This means we can no longer trust that this key is in fact still valid.
+                // We have already observed newer events from this node on this source.
+                // The event is only stale once it falls behind the safe (forgiveness
+                // adjusted) cut off, which is the same rule `will_apply` uses. Events
+                // inside the window are out-of-order, not already-observed.
                 if &ts < entry.get() {
                     self.compute_safe_last_stamp(ts.node());
-                    return false;
+                    return !self.is_ts_before_last_observed_event(ts);
                 }
 
                 entry.insert(ts);
